@@ -1,5 +1,6 @@
 import KrakenModel.Util.KV
 import KrakenModel.Model.CAStoreMem
+import KrakenModel.Model.OriginBlob
 /-
   Helper lemmas for Spec/C01: the store invariant `GoodStore` (every memory entry, every committed
   cache file and every queued drain item hashes to its name, and every stored metainfo was computed
@@ -418,6 +419,87 @@ theorem drop1_head?_mem {α : Type} {l : List α} {a : α} (h : (l.drop 1).head?
   cases l with
   | nil => cases h
   | cons x xs => exact List.mem_cons_of_mem _ (head?_mem (by simpa using h))
+
+/-! ### the origin's HTTP operations are compositions of store operations -/
+
+/-- good store with verification on -/
+def GoodV (H : Bytes → Name) (crc : Bytes → Nat) (c : State) : Prop := c.cfg.skipVerify = false ∧ GoodStore H crc c
+
+theorem GoodV.step {c : State} (h : GoodV H crc c) (o : Op) : GoodV H crc (apply H crc c o).1 :=
+  ⟨(apply_cfg c o) ▸ h.1, apply_good h.1 h.2 o⟩
+
+open KrakenModel.OriginBlob in
+theorem origin_conflict_good {s : OriginBlob.State} (h : GoodV H crc s.cas) (k : Kind) (n : Name) :
+    GoodV H crc (OriginBlob.conflict crc s k n).1.cas := by
+  unfold OriginBlob.conflict
+  cases k with
+  | transfer => exact h
+  | cluster =>
+    simp only
+    split
+    · exact h.step (.genMeta n s.pl)
+    · exact h
+
+open KrakenModel.OriginBlob in
+theorem origin_apply_good {s : OriginBlob.State} (h : GoodV H crc s.cas) (o : OOp) :
+    GoodV H crc (OriginBlob.apply H crc s o).1.cas := by
+  cases o with
+  | start k n u =>
+    simp only [OriginBlob.apply, OriginBlob.start]
+    split
+    · exact origin_conflict_good h k n
+    · have := h.step (.createUpload u)
+      simp only [CAStoreMem.apply] at this
+      split
+      · rename_i c hc; rw [hc] at this; exact this
+      · exact h
+  | patch k n u off b =>
+    simp only [OriginBlob.apply, OriginBlob.patch]
+    split
+    · exact origin_conflict_good h k n
+    · have := h.step (.writeUpload u off b)
+      simp only [CAStoreMem.apply] at this
+      split
+      · rename_i c hc; rw [hc] at this; exact this
+      · exact h
+      · exact h
+  | commit k n u =>
+    simp only [OriginBlob.apply, OriginBlob.commit]
+    have h1 := h.step (.commit u n)
+    simp only [CAStoreMem.apply] at h1
+    split
+    · rename_i c hc
+      rw [hc] at h1
+      have h2 := GoodV.step (c := c) h1 (.genMeta n s.pl)
+      simp only [CAStoreMem.apply] at h2
+      split
+      · rename_i c' hc'; rw [hc'] at h2; exact h2
+      · rename_i c' r hc'; rw [hc'] at h2; exact h2
+    · rename_i c hc; rw [hc] at h1; exact h1
+    · rename_i c hc; rw [hc] at h1
+      exact origin_conflict_good (s := { s with cas := c }) h1 k n
+    · rename_i c r hc; rw [hc] at h1; exact h1
+  | fetch n size atts =>
+    simp only [OriginBlob.apply, OriginBlob.fetch]
+    split
+    · exact h
+    · split
+      · exact h
+      · rename_i sz
+        split
+        · exact h
+        · have h1 := h.step (.writeBlob n sz atts s.pl)
+          simp only [CAStoreMem.apply] at h1
+          split
+          · rename_i c hc; rw [hc] at h1; exact h1
+          · rename_i c r hc; rw [hc] at h1; exact h1
+  | overwriteMeta n pl =>
+    simp only [OriginBlob.apply, OriginBlob.overwriteMeta]
+    have h1 := h.step (.genMeta n pl)
+    simp only [CAStoreMem.apply] at h1
+    split
+    · rename_i c hc; rw [hc] at h1; exact h1
+    · rename_i c r hc; rw [hc] at h1; exact h1
 
 end
 end KrakenModel.Proof.C01
